@@ -114,6 +114,44 @@ CHECKS = {
         "well-formed (or end in one of the two documented errors); unspecified cells are counted, not judged.",
         "DESIGN.md §5 C14",
     ),
+    "C12": (
+        "exploration",
+        "bounded exhaustive enumeration of metamorphic pairs (every small-alphabet matrix x every column permutation, "
+        "shift, scale, reversal) through all scorers on all cuts and all applicable detectors, with independent tie analysis",
+        "Every pair in the stated spaces is executed; continuous outputs compared with a magnitude-derived tolerance, discrete "
+        "outputs exactly unless a demonstrated near-tie excuses the mismatch (counted).",
+        "DESIGN.md §5 C12",
+    ),
+    "C15": (
+        "exploration",
+        "exhaustive enumeration of the (detector, n, p, scale, k, bandwidth, M) grid for fitted thresholds/penalties and the "
+        "MVCAPA penalty families vs closed forms, and of all small-alphabet series for tuned thresholds and PELT penalty monotonicity",
+        "Every grid cell / series in the stated spaces is evaluated on the real code and compared with the documented formulas, "
+        "the quantile bracket and the monotonicity claim.",
+        "DESIGN.md §5 C15",
+    ),
+    "C16": (
+        "exploration",
+        "exhaustive enumeration of all assignments of saving levels to columns (5^p, p<=4/6) x penalties x anomaly kinds through "
+        "the real MVCAPA with table savings, and of small multivariate data sets, vs the sorted-prefix optimum",
+        "Every assignment is run through predict and transform; affected columns compared with the optimal sparse subset.",
+        "DESIGN.md §5 C16",
+    ),
+    "C17": (
+        "exploration",
+        "exhaustive enumeration of every changepoint subset (user-defined fixed detector) x every (-2,0,2) series x statistics "
+        "x bounds, and of real change detectors on all (0,4) series, vs segment-wise thresholding",
+        "Every case is run through the real StatThresholdAnomaliser and compared with the segment-wise reference; the user's "
+        "detector object is checked for being untouched.",
+        "DESIGN.md §5 C17",
+    ),
+    "C18": (
+        "exploration",
+        "exhaustive enumeration of (n, p, seed, position list, parameter shape) for the four generators, differential against "
+        "the generator's own standard-normal draw, plus a fixed menu of inconsistent arguments",
+        "Every case of the stated spaces is generated twice and compared with mean + sqrt(variance) x standard-normal draw.",
+        "DESIGN.md §5 C18",
+    ),
     "C03": (
         "exploration",
         "bounded exhaustive enumeration of sub-additive saving tables x point-saving vectors x penalty branches "
